@@ -9,6 +9,11 @@ irregular SEG-Y with a mask) and every read method:
     (random permutations), with and without faults.
 direct oracle (no model): the call raises, or returns bitwise the true data; a retry on the same reader after the fault
   has gone returns the true data (no poisoned state).
+failure atomicity (both backends): on a fresh reader, after the faulted call has ended, a sequence of OTHER fault-free
+  calls on the same reader / handle -- first the calls whose range read starts exactly where the failed read would have
+  ended (found from the recorded read plans of the base calls shifted by one item / 4-unit / block along each axis and of
+  every stored header array), then the failed call again, then calls with unrelated byte ranges -- must each return the
+  true data (a failed read leaves nothing behind in the reader, the loader caches or the file handle's position).
 correspondence: the model's verdict (Model/Faults.v predict_raises_file / predict_raises_blob evaluated inside Coq on
   the recorded read plan, file length and fault assignment) must equal "the implementation raised".
 """
@@ -22,11 +27,17 @@ from coqeval import coq_eval, parse_value, zlit
 R = Result('one case = (file layout, backend, read method + arguments, fault assignment or completion order); non-trivial = a '
            'case with at least one injected fault on a range read the call really issues, or a non-identity completion '
            'order; every position of every read plan x {exception, short, empty}, random pairs, constructor faults, '
-           'random permutations of the blob completions')
+           'random permutations of the blob completions; after a faulted call, fault-free follow-up calls on the same '
+           'reader (byte range contiguous with the failed read, the same call, unrelated ranges)')
 rng = random.Random(a.seed * 104729 + 17)
 QUICK = a.tier != 'thorough'
 d = scratch_dir()
 KINDS = ('exc', 'short', 'empty')
+# follow-up calls after a failed call: how many contiguous / unrelated ones, and the share of failed reads WITHOUT a
+# contiguous candidate that still get an (unrelated, same) follow-up sequence
+N_CONTIG, N_OTHER = (2, 1) if QUICK and not a.search else (3, 2)
+P_NO_CONTIG = 1.0 if not QUICK else 0.5 if a.search else 0.25
+P_BLOB_FOLLOW = 1.0 if a.search else 0.5       # quick tier: share of the blob fault cases that get a follow-up sequence
 
 
 # ------------------------------------------------------------------------------------------------ files
@@ -102,6 +113,161 @@ def calls_for(path, kind):
     return C
 
 
+def neighbour_calls(path, kind, base):
+    """the base calls shifted by one item / one 4-unit / one block along each axis, and every stored header array: the
+    follow-up candidates for the failure-atomicity class (which of them have a byte range that abuts a failed read is
+    read off the recorded read plans, never assumed)"""
+    r = SgzReader(path)
+    bs = [abs(int(b)) for b in r.blockshape]
+    tc, ns = r.tracecount, r.n_samples
+    out = []
+
+    def shifts(v, lo, hi, steps):
+        return [v + sg * s for s in sorted(set(steps)) for sg in (-1, 1) if s > 0 and lo <= v + sg * s < hi]
+
+    for name, args in base:
+        if kind == '3d':
+            ni, nx = r.n_ilines, r.n_xlines
+            if name == 'read_inline':
+                out += [(name, (v,)) for v in shifts(args[0], 0, ni, (1, 4, bs[0]))]
+            elif name == 'read_crossline':
+                out += [(name, (v,)) for v in shifts(args[0], 0, nx, (1, 4, bs[1]))]
+            elif name == 'read_zslice':
+                out += [(name, (v,)) for v in shifts(args[0], 0, ns, (1, 4, bs[2]))]
+            elif name == 'get_trace':
+                out += [(name, (v,) + tuple(args[1:])) for v in shifts(args[0], 0, tc, (1, 4, bs[1], nx, 4 * nx))]
+            elif name == 'read_subvolume':
+                i0, i1, x0, x1, z0, z1 = args
+                for s in (4, bs[0]):
+                    if i1 + s <= ni:
+                        out.append((name, (i0 + s, i1 + s, x0, x1, z0, z1)))
+                for s in (4, bs[1]):
+                    if x1 + s <= nx:
+                        out.append((name, (i0, i1, x0 + s, x1 + s, z0, z1)))
+                for s in (4, bs[2]):
+                    if z1 + s <= ns:
+                        out.append((name, (i0, i1, x0, x1, z0 + s, z1 + s)))
+        else:
+            if name == 'get_trace':
+                out += [(name, (v,) + tuple(args[1:])) for v in shifts(args[0], 0, tc, (1, 4, bs[1]))]
+            elif name == 'read_subplane':
+                t0, t1, z0, z1 = args
+                for s in (1, 4, bs[1]):
+                    if t1 + s <= tc:
+                        out.append((name, (t0 + s, t1 + s, z0, z1)))
+                for s in (4, bs[2]):
+                    if z1 + s <= ns:
+                        out.append((name, (t0, t1, z0 + s, z1 + s)))
+        if name == 'gen_trace_header':
+            out += [(name, (v,)) for v in shifts(args[0], 0, tc, (1,))]
+    for k in r.stored_header_keys:
+        out.append(('get_tracefield_values', (int(k),)))
+    r.close()
+    seen = set(base)
+    res = []
+    for c in out:
+        if c not in seen:
+            seen.add(c)
+            res.append(c)
+    return res
+
+
+class Pool:
+    """fault-free result and read plan of every candidate follow-up call of one file on one backend"""
+    def __init__(self, path, kind, opener, plan_of):
+        self.base = calls_for(path, kind)
+        self.entries = []                     # (name, args, want, plan)
+        for name, args in self.base + neighbour_calls(path, kind, self.base):
+            h = opener(path)
+            r = SgzReader(h)
+            n0 = len(plan_of(h))
+            try:
+                want = canon(do_call(r, name, args))
+            except Exception:
+                # base calls: reported by the main loop; shifted calls: not a statement about I/O failures
+                r.close()
+                continue
+            self.entries.append((name, args, want, list(plan_of(h)[n0:])))
+            r.close()
+
+    def followers(self, name, args, failed, n_contig, n_other):
+        """([calls whose read plan has a range read starting where the failed read (off, length) would have ended --
+        first range read of the call preferred], [calls with no such read]); never the failed call itself"""
+        end = failed[0] + failed[1]
+        first, later, other = [], [], []
+        for e in self.entries:
+            if (e[0], e[1]) == (name, args) or not e[3]:
+                continue
+            if e[3][0][0] == end:
+                first.append(e)
+            elif any(o == end for o, _ in e[3]):
+                later.append(e)
+            elif all(o + l <= failed[0] or failed[0] + failed[1] <= o for o, l in e[3]):
+                other.append(e)
+        rng.shuffle(first); rng.shuffle(later); rng.shuffle(other)
+        return (first + later)[:n_contig], other[:n_other]
+
+
+def raises_fault_free(fresh, calls, exc_type):
+    r = fresh()
+    try:
+        for name, args in calls[:-1]:
+            try:
+                do_call(r, name, tuple(args))
+            except Exception:
+                pass
+        try:
+            do_call(r, calls[-1][0], tuple(calls[-1][1]))
+        except Exception as e:
+            return type(e) is exc_type
+        return False
+    finally:
+        r.close()
+
+
+def follow_ups(r, label, backend, info, failed, contig, other, same, fresh):
+    """the faulted call on reader r has just ended (it raised, or returned: checked by the caller) and the fault script is
+    empty now: every later call on r must return the true data -- first the calls whose byte range is contiguous with the
+    failed read, then the failed call itself, then unrelated calls (failure atomicity: a failed read leaves no trace in
+    the reader, the loader's caches or the file handle)"""
+    seq = [(e, 'contiguous') for e in contig] + [(same, 'same')] + [(e, 'unrelated') for e in other]
+    if not contig:
+        seq = [(e, 'unrelated') for e in other] + [(same, 'same')]
+    done = []
+    for (name, args, want, plan), rel in seq:
+        inp = dict(info, after_failed_call=True, failed_read=list(failed), follow_up=[name, list(args)], relation=rel,
+                   follow_up_first_read=list(plan[0]) if plan else None, calls_since_failure=list(done))
+        try:
+            got = canon(do_call(r, name, args))
+            if got != want:
+                R.violation('oracle', inp,
+                            f'after a call that failed in the range read [{failed[0]}, {failed[0] + failed[1]}), a fault-free '
+                            f'{name}{tuple(args)} on the same reader ({rel}'
+                            + (f': its range read starts at byte {failed[0] + failed[1]}, where the failed one would have ended' if rel == 'contiguous' else '')
+                            + ') returned data that differs from the true data without raising')
+        except Exception as e:
+            # some call sequences raise with no I/O fault anywhere (a header array cached in one padding mode and then
+            # asked for in the other): not a statement about I/O failures if the same calls raise the same way on a
+            # fault-free reader, with the failed call either never made or made successfully
+            if any(raises_fault_free(fresh, pre + done + [[name, list(args)]], type(e))
+                   for pre in ([], [[same[0], list(same[1])]])):
+                R.count(f'{backend}_followup_raises_fault_free_too')
+            else:
+                R.violation('oracle', inp, f'after a failed call, a fault-free {name}{tuple(args)} on the same reader ({rel}) '
+                                           f'raised {type(e).__name__}: {e}')
+        done.append([name, list(args)])
+        R.count(f'{backend}_followup_{rel}')
+    sample = None
+    if contig and backend not in FOLLOWUP_SAMPLED:
+        FOLLOWUP_SAMPLED.add(backend)
+        sample = dict(info, failed_read=list(failed), follow_ups=[[e[0], list(e[1]), rel] for e, rel in seq])
+    R.case((backend + '-followup', label, info['call'], tuple(info['args']), tuple(map(tuple, info['fault'])),
+            tuple((e[0], e[1]) for e, _ in seq)), sample=sample)
+
+
+FOLLOWUP_SAMPLED = set()
+
+
 def do_call(r, name, args):
     if name == 'gen_trace_header_all':
         return r.gen_trace_header(args[0], load_all_headers=True)
@@ -169,7 +335,8 @@ def run_local(label, path, kind):
                 R.count('constructor_fault')
                 model_case('file', L, [(k, fk)], plan_p, raised, info)
     # read methods
-    for name, args in calls_for(path, kind):
+    pool = Pool(path, kind, CountingFile, lambda h: h.all)
+    for name, args in pool.base:
         f = CountingFile(path)
         r = SgzReader(f)
         n0 = f.n
@@ -218,6 +385,22 @@ def run_local(label, path, kind):
             r.close()
             R.case(('file', label, name, args, tuple(fa)), sample=info if len(R.samples) < 3 else None)
             R.count('local_fault' if len(fa) == 1 else 'local_pair')
+            # failure atomicity: a fresh reader, the same faulted call, then OTHER fault-free calls on that reader
+            failed = plan[fa[0][0]]
+            contig, other = pool.followers(name, args, failed, N_CONTIG, N_OTHER)
+            if not contig and rng.random() >= P_NO_CONTIG:
+                continue
+            f = CountingFile(path)
+            r = SgzReader(f)
+            f.faults = {f.n + k: fk for k, fk in fa}
+            try:
+                do_call(r, name, args)
+            except Exception:
+                pass
+            f.faults = {}
+            follow_ups(r, label, 'file', info, failed, contig, other, (name, args, want, plan),
+                       lambda: SgzReader(CountingFile(path)))
+            r.close()
 
 
 # ------------------------------------------------------------------------------------------------ blob backend
@@ -291,7 +474,8 @@ class _Download:
 
 def run_blob(label, path, kind):
     L = os.path.getsize(path)
-    for name, args in calls_for(path, kind):
+    pool = Pool(path, kind, FakeBlob, lambda h: h.order)
+    for name, args in pool.base:
         b = FakeBlob(path)
         r = SgzReader(b)
         assert r.local is False and r.loader.n_workers == 20
@@ -356,6 +540,20 @@ def run_blob(label, path, kind):
                     R.violation('oracle', dict(info, retry=True), f'after a failed call the same reader keeps raising {type(e).__name__}')
                 R.case(('blob', label, name, args, k, fk), sample=info if len(R.samples) < 6 else None)
                 R.count('blob_fault')
+                # failure atomicity on the blob backend: a fresh reader, the faulted call, then other fault-free calls
+                contig, other = pool.followers(name, args, plan[k], N_CONTIG, N_OTHER)
+                if rng.random() >= (1.0 if not QUICK else P_BLOB_FOLLOW if contig else P_BLOB_FOLLOW * P_NO_CONTIG):
+                    continue
+                b = FakeBlob(path)
+                r = SgzReader(b)
+                b.faults = {plan[k]: fk}
+                try:
+                    do_call(r, name, args)
+                except Exception:
+                    pass
+                b.faults = {}
+                follow_ups(r, label, 'blob', dict(info0, fault=[[k, fk]]), plan[k], contig, other, (name, args, want, plan),
+                           lambda: SgzReader(FakeBlob(path)))
     # constructor on the blob backend
     b = FakeBlob(path)
     r = SgzReader(b)
